@@ -762,3 +762,6 @@ def check_r4(rep, fx, W, far, reach, extra):
                 far.name, far.at(tgt))
     rep.floor('C02.R4 Opcode arms', n, 20)
     # set_ip / next_ip themselves: log precedes the write and carries the old ip -> covered by R2 instances
+
+# as-built addendum
+EXPLANATION += ' As built (DESIGN 9.2): R1 also between runs: outside the step function machine state changes only in the undo arms or while a rejected source is rolled back with the log cut on the same paths; the halt of a failed program goes through the logging primitives. R3 also: rnext drains the live log, the log shrinks only by that pop and by the cut at the close of a meta block (which comes last); no error exit lies between a log entry and its write; a length mark of the log is taken after everything that can log. R4 also: run, next and the halt close a group left open on the log before a new step is recorded.'
